@@ -33,8 +33,9 @@ class Proc:
         if self.sig: return 'signal'
         return 'ok' if self.rc == 0 else 'fail'
 
-def run(argv, cwd=None, env=None, timeout=60, stdin=None, merge=False, limit=4 << 20):
-    """Run a subprocess in its own process group with a wall-clock watchdog."""
+def run(argv, cwd=None, env=None, timeout=60, stdin=None, merge=False, limit=4 << 20, mem_mb=None):
+    """Run a subprocess in its own process group with a wall-clock watchdog (and an address-space cap if mem_mb)."""
+    if mem_mb: argv = ['prlimit', '--as=%d' % (mem_mb << 20)] + list(argv)
     e = dict(os.environ)
     e.pop('ALDORROOT', None)
     if env: e.update(env)
@@ -121,6 +122,7 @@ class Ctx:
             print('INCONCLUSIVE property=%s build of /repo working tree failed' % pid)
             print(str(e)[-3000:], file=sys.stderr)
             sys.exit(2)
+        shutil.rmtree(os.path.join(VERIF, 'replay', pid), ignore_errors=True)
         self.rundir = os.path.join(build.WORK, 'run', '%s-%d' % (pid, os.getpid()))
         shutil.rmtree(self.rundir, ignore_errors=True)
         os.makedirs(self.rundir)
@@ -189,6 +191,11 @@ class Ctx:
         json.dump(ev, open(tmp, 'w'), indent=1, default=str)
         os.replace(tmp, os.path.join(VERIF, 'evidence', self.pid + '.json'))
         shutil.rmtree(self.rundir, ignore_errors=True)
+        if os.environ.get('VF_TRIAGE'):
+            os.makedirs(os.path.join(VERIF, 'triage'), exist_ok=True)
+            with open(os.path.join(VERIF, 'triage', self.pid + '.jsonl'), 'w') as fh:
+                for key, what, rd in self.viol:
+                    fh.write(json.dumps({'property': self.pid, 'key': key, 'status': 'open', 'witness': os.path.relpath(rd, VERIF), 'what': what[:300]}) + '\n')
         for key, what in sorted(self.known_hit.items()):
             print('KNOWN-FINDING: property=%s %s :: %s' % (self.pid, key, what[:200].replace('\n', ' ')))
         if self.viol:
@@ -226,37 +233,28 @@ def fault_text(p):
         return m.group(0).decode(errors='replace')
     return None
 
-ASAN_ENV = {'ASAN_OPTIONS': 'detect_leaks=0:allow_user_segv_handler=0:handle_abort=1:abort_on_error=0:allocator_may_return_null=1:symbolize=1:malloc_context_size=5',
+ASAN_ENV = {'ASAN_OPTIONS': 'hard_rss_limit_mb=6000:detect_leaks=0:allow_user_segv_handler=0:handle_abort=1:abort_on_error=0:allocator_may_return_null=1:symbolize=1:malloc_context_size=5',
             'UBSAN_OPTIONS': 'print_stacktrace=1'}
 
 def san_signature(p):
-    """(kind, innermost repository function) from an ASan/UBSan report or the hook backtrace."""
-    blob = (p.err + b'\n' + p.out).decode(errors='replace')
-    m = re.search(r'ERROR: AddressSanitizer: ([\w-]+)', blob)
-    kind = None
-    if m: kind = 'asan:' + m.group(1)
-    else:
-        m = re.search(r'([\w./]+):(\d+):\d+: runtime error: ([a-z ]+)', blob)
-        if m: return ('ubsan:' + m.group(3).strip().split(' for ')[0][:30], os.path.basename(m.group(1)))
-    if kind:
-        for fm in re.finditer(r'#\d+ 0x[0-9a-f]+ in (\w+) ([^\s:]+)', blob):
+    """(kind, innermost repository function) from an ASan/UBSan report, or None"""
+    raw = p.err + b'\n' + p.out
+    i = raw.find(b'ERROR: AddressSanitizer')
+    if i >= 0:
+        blob = raw[i:i + 20000].decode(errors='replace')
+        m = re.search(r'ERROR: AddressSanitizer: ([\w-]+)', blob)
+        kind = 'asan:' + (m.group(1) if m else '?')
+        for fm in re.finditer(r'#\d+ 0x[0-9a-f]+ in (\w+) (\S+)', blob):
             fn, path = fm.group(1), fm.group(2)
             if '/aldor/' in path and not fn.startswith('__'):
                 return (kind, fn)
         return (kind, '?')
+    i = raw.find(b'runtime error:')
+    if i >= 0:
+        j = raw.rfind(b'\n', 0, i) + 1
+        k = raw.find(b'\n', i)
+        line = raw[j:k if k >= 0 else len(raw)].decode(errors='replace')
+        m = re.match(r'(\S+?):(\d+):\d+: runtime error: ([a-z ]+)', line)
+        if m: return ('ubsan:' + m.group(3).strip().split(' for ')[0][:30], os.path.basename(m.group(1)))
+        return ('ubsan:?', '?')
     return None
-
-# ---------------------------------------------------------------- harness binaries
-def harness(ctx, name, variant='plain', extra_src=(), extra_flags=()):
-    """Compile /verif/harness/<name>.c against the snapshot's own archives."""
-    b = ctx.b
-    S = b.S if variant == 'plain' else b.S_asan
-    out = os.path.join(ctx.rundir, '%s.%s' % (name, variant))
-    flags = ['-g', '-O0', '-w'] if variant == 'plain' else \
-            ['-g', '-O1', '-w', '-fno-omit-frame-pointer', '-fsanitize=address,bounds', '-fno-sanitize-recover=all', '-DSTO_USE_MALLOC']
-    cmd = ['gcc'] + flags + list(extra_flags) + ['-DALDOR_VERIF', '-I' + S, os.path.join(VERIF, 'harness', name + '.c')] + list(extra_src) + \
-          [os.path.join(S, 'libstruct.a'), os.path.join(S, 'libgen.a'), os.path.join(S, 'libport.a'), '-lm', '-o', out]
-    p = run(cmd, timeout=300)
-    if p.rc != 0:
-        raise Inconclusive('harness %s (%s) does not compile against this tree: %s' % (name, variant, (p.err or p.out)[-1500:].decode(errors='replace')))
-    return out
